@@ -66,3 +66,92 @@ func Family(kind string, n int) (text string, schema bool) {
 	}
 	return "", false
 }
+
+// Wide and deep members of the grammars: each is derivable for every n >= 1, so a parser must
+// accept it and build n items. They exist to reach size thresholds (nesting counters, token
+// budgets, buffer sizes) that small generated trees never approach.
+var WideQueryKinds = []string{"w-fields", "w-spreads", "w-inline", "w-inline-typed", "w-args", "w-list", "w-object", "w-vars", "w-ops", "w-frags", "w-directives", "w-aliases",
+	"d-selections", "d-inline", "d-list", "d-object", "d-type", "w-mixed"}
+var WideSchemaKinds = []string{"w-types", "w-fielddefs", "w-argdefs", "w-enum", "w-union", "w-implements", "w-inputfields", "w-directives-applied", "w-locations", "w-extends",
+	"d-type", "d-default-list", "d-default-object", "w-descriptions", "w-schema-ops"}
+
+func WideQuery(kind string, n int) string {
+	switch kind {
+	case "w-fields":
+		return "{" + rep(" a", n) + " }"
+	case "w-spreads":
+		return "{" + rep(" ...F", n) + " } fragment F on T { a }"
+	case "w-inline":
+		return "{" + rep(" ... { a }", n) + " }"
+	case "w-inline-typed":
+		return "{" + rep(" ... on T @d { a }", n) + " }"
+	case "w-args":
+		return "{ a(" + rep("x: 1 ", n) + ") }"
+	case "w-list":
+		return "{ a(x: [" + rep("1 ", n) + "]) }"
+	case "w-object":
+		return "{ a(x: {" + rep("k: $v ", n) + "}) }"
+	case "w-vars":
+		return "query Q(" + rep("$v: [Int!] = [1] @d ", n) + ") { a }"
+	case "w-ops":
+		return rep("query Q { a } ", n)
+	case "w-frags":
+		return "{ a }" + rep(" fragment F on T { ...F }", n)
+	case "w-directives":
+		return "{ a" + rep(" @d(x: 1)", n) + " }"
+	case "w-aliases":
+		return "{" + rep(" k: a { b }", n) + " }"
+	case "d-selections":
+		return rep("{ a ", n) + rep("}", n)
+	case "d-inline":
+		return "{" + rep(" ... on T { ", n) + "a" + rep(" }", n) + " }"
+	case "d-list":
+		return "{ a(x: " + rep("[", n) + "1" + rep("]", n) + ") }"
+	case "d-object":
+		return "{ a(x: " + rep("{k: ", n) + "1" + rep("}", n) + ") }"
+	case "d-type":
+		return "query Q($v: " + rep("[", n) + "Int!" + rep("]!", n) + ") { a }"
+	case "w-mixed":
+		return "{" + rep(" a ...F ... on T { b } ... @d { c }", n) + " } fragment F on T { a }"
+	}
+	return ""
+}
+
+func WideSchema(kind string, n int) string {
+	switch kind {
+	case "w-types":
+		return rep("type T { a: Int } ", n)
+	case "w-fielddefs":
+		return "type T {" + rep(" a: Int", n) + " }"
+	case "w-argdefs":
+		return "type T { a(" + rep("x: Int = 1 ", n) + "): Int }"
+	case "w-enum":
+		return "enum E {" + rep(" A", n) + " }"
+	case "w-union":
+		return "union U = A" + rep(" | A", n)
+	case "w-implements":
+		return "type T implements I" + rep(" & I", n) + " { a: Int }"
+	case "w-inputfields":
+		return "input I {" + rep(" a: Int = 1", n) + " }"
+	case "w-directives-applied":
+		return "type T" + rep(" @d(x: 1)", n) + " { a: Int }"
+	case "w-locations":
+		return "directive @d on FIELD" + rep(" | QUERY", n)
+	case "w-extends":
+		return "type T { a: Int }" + rep(" extend type T @d", n)
+	case "d-type":
+		return "type T { a: " + rep("[", n) + "Int" + rep("]", n) + " }"
+	case "d-default-list":
+		return "input I { a: Int = " + rep("[", n) + "1" + rep("]", n) + " }"
+	case "d-default-object":
+		return "input I { a: Int = " + rep("{k: ", n) + "1" + rep("}", n) + " }"
+	case "w-descriptions":
+		return rep(`"d" type T { "d" a("d" x: Int): Int } `, n)
+	case "w-schema-ops":
+		return "schema {" + rep(" query: Q", n) + " }"
+	}
+	return ""
+}
+
+// WideSizes straddle round thresholds a size guard is likely to use.
+var WideSizes = []int{1, 2, 3, 15, 16, 17, 63, 64, 65, 100, 101, 127, 128, 129, 255, 256, 257, 499, 500, 501, 511, 512, 513, 999, 1000, 1001, 1023, 1024, 1025, 2047, 2048, 2049, 4095, 4096, 4097}
